@@ -721,6 +721,11 @@ type commandExtractor struct {
 type commandKey struct {
 	command    string
 	varsDigest string
+
+	// Number of stack symbols preceding the command. The generated code addresses the stack
+	// relative to it, so two commands can share a nonterminal only when it matches (this is not
+	// implied by varsDigest: lookaheads occupy a stack slot without having a position).
+	symRefCount int
 }
 
 func newCommandExtractor(m *syntax.Model, baseSyms int) *commandExtractor {
@@ -738,7 +743,10 @@ func newCommandExtractor(m *syntax.Model, baseSyms int) *commandExtractor {
 }
 
 func (e *commandExtractor) extract(n *syntax.Nonterm, command string, vars *grammar.ActionVars, cmdOrigin status.SourceNode) lalr.Sym {
-	key := commandKey{command, vars.String()}
+	key := commandKey{command: command, varsDigest: vars.String()}
+	if vars != nil {
+		key.symRefCount = vars.SymRefCount
+	}
 	if sym, ok := e.index[key]; ok {
 		return sym
 	}
